@@ -9,10 +9,12 @@ KERNEL_NOTE = ('Trusted base: the pyvc VC generator and its stated encoding of P
 
 PROPS = {
     'C01': dict(
-        title='canonical representation', level='proof', engines=[],
-        claim='Every raw mpf returned by the libmpf kernel functions under contract (normalisation, construction, '
-              'sign operations, add/sub/mul/div, shift) is canonical: proved for all integer inputs, all precisions and '
+        title='canonical representation', level='proof', engines=['refine'],
+        claim='Every raw mpf returned by the libmpf/libmpc kernel functions under contract (normalisation, construction, '
+              'sign operations, add/sub/mul/div/mod, shift, integer parts, perturb) is canonical: proved for all integer inputs, all precisions and '
               'all five rounding modes as a postcondition (ensures_wf) of the real function bodies, function by function. '
+              'Whole-library refinement pass: every libmp function with a precision parameter is checked, path by path against '
+              'its callees\' contracts, to return only canonical raw mpfs (functions that cannot be justified are listed, not counted). '
               'Consequence clause: mpf_eq is tuple equality, so equal canonical values are identical tuples. '
               'Functions outside the contract set are not covered (listed in DESIGN.md).',
         note=KERNEL_NOTE,
@@ -39,13 +41,21 @@ PROPS = {
              'mpc_hash, mpq and the context-level __eq__/__hash__ wrappers are not yet under contract.',
         technique='deductive: AST->z3 verification conditions from sidecar contracts'),
     'C10': dict(
-        title='no more bits than the working precision', level='proof', engines=[],
-        claim='Every kernel function under contract that takes (prec, rnd) returns a mantissa of at most prec bits when '
-              'prec > 0 (ensures_bits), for all inputs and modes; proved from the real bodies.',
-        note=KERNEL_NOTE + ' Elementary/special functions and the context layer are not yet covered by this clause.',
-        technique='deductive: AST->z3 verification conditions from sidecar contracts'),
+        title='no more bits than the working precision', level='other', engines=['refine'],
+        claim='(1) Every kernel function under contract that takes (prec, rnd) returns a mantissa of at most prec bits when '
+              'prec > 0 (ensures_bits), for all inputs and modes; proved from the real bodies. (2) Whole-library refinement '
+              'pass: every module-level function of mpmath/libmp with a precision parameter is given the contract "every raw '
+              'mpf component returned is canonical with at most prec bits, prec being the function\'s own parameter" and its '
+              'real body is checked path by path against the contracts of its callees (greatest fixpoint; functions that cannot '
+              'be justified are listed, not counted). Known findings (mpc_add_mpf/mpc_sub_mpf, mpc_nthroot/mpc_cbrt) are '
+              'recorded, not repaired, because repairing them breaks existing tests.',
+        note=KERNEL_NOTE + ' Refinement pass: inputs are assumed canonical; unmodelled code is havocked; the context layer '
+             '(operator templates, _wrap_specfun final +retval) is not under contract yet.',
+        technique='deductive VCs (z3) for the kernel + refinement-type checking of all libmp functions by symbolic execution against callee contracts',
+        explanation='proof obligations for every claimed clause; the obligations matching known_findings.json are reported as KNOWN-FINDING and are not discharged (coverage.known_findings_hit)'),
     'C04': dict(
-        title='complex arithmetic correctly rounded per component', level='proof', engines=[],
+        title='complex arithmetic correctly rounded per component', level='other', engines=[],
+        explanation='proof obligations for every claimed clause; the obligations of mpc_add_mpf / mpc_sub_mpf (finding F2, not repaired because the repair breaks an existing test) are reported as KNOWN-FINDING and are not discharged',
         claim='For all canonical operands, precisions and rounding modes each component of mpc_add, mpc_sub, mpc_add_mpf, '
               'mpc_sub_mpf, mpc_pos, mpc_neg, mpc_conjugate, mpc_mul (finite operands), mpc_mul_mpf, mpc_mul_int is the '
               'correctly rounded value of the exact component (sum/difference of exact products for mpc_mul), is canonical '
